@@ -81,11 +81,12 @@ CSS_TRUST = ("Trusted: Lean kernel; axioms ⊆ {propext, Classical.choice, Quot.
 
 claim("C08",
       "PARTIAL proof. Lean 4 theorem rule_rewrite_exact (by structural recursion over the token tree, any nesting depth): for a style rule the written token kinds, brackets "
-      "included, are exactly the input's — nothing merged, split, dropped, duplicated or reordered — whitespace and comments aside; model tied to the implementation "
-      "token-by-token. Which whitespace survives (descendant combinators, calc +/-) and spelling-sensitive values are judged by the oracle retokenise(output) == "
-      "expected_rewrite(tokenise(input)).",
-      CSS_TRUST + "At-rule dispatch and whitespace retention are covered by correspondence + oracle only.",
-      "Lean 4 proof (partial: token-kind preservation per rule) + model/implementation token-stream correspondence + re-tokenisation oracle")
+      "included, are exactly the input's — nothing merged, split, dropped, duplicated or reordered — whitespace and comments aside; convCls_marks / qualLoop_marks + "
+      "selMarks_flat / ruleMarks_flat: the whitespace written in selector context is exactly the collapse of the input's (leading/trailing dropped, every inner run kept as "
+      "one, none invented) at every nesting depth of selector functions, so descendant combinators survive; calc_keeps_space_*: whitespace next to + / - in calc() is written. "
+      "Model tied to the implementation token-by-token. Spelling-sensitive values are judged by the oracle retokenise(output) == expected_rewrite(tokenise(input)).",
+      CSS_TRUST + "At-rule dispatch and the separator table are covered by correspondence + oracle only.",
+      "Lean 4 proof (token-kind preservation and whitespace collapse per rule, any nesting) + model/implementation token-stream correspondence + re-tokenisation oracle")
 claim("C09",
       "PARTIAL proof. Lean 4 theorems rule_rewrite_exact / convCls_wrote / convRpx_wrote: every identifier of a rule is written exactly once, in order, and is replaced by "
       "<prefix>--<name> exactly when it immediately follows `.` in selector context (any depth of selector functions and prelude blocks), never in value context; "
